@@ -13,6 +13,17 @@ use debian_copyright::License;
 use std::path::Path;
 use std::str::FromStr;
 
+/// A path field is hex-encoded UTF-8, or "!" + hex of raw bytes (a path that is not valid UTF-8).
+fn path_of(field: &str) -> std::path::PathBuf {
+    if let Some(h) = field.strip_prefix('!') {
+        use std::os::unix::ffi::OsStrExt;
+        let bytes: Vec<u8> = (0..h.len() / 2).map(|i| u8::from_str_radix(&h[2 * i..2 * i + 2], 16).unwrap()).collect();
+        std::path::PathBuf::from(std::ffi::OsStr::from_bytes(&bytes))
+    } else {
+        std::path::PathBuf::from(unhex(field))
+    }
+}
+
 fn lic_s(l: &License) -> String {
     match l {
         License::Name(n) => format!("N:{}", hex(n)),
@@ -45,9 +56,9 @@ pub fn glob(fs: &[&str]) -> String {
     };
     let mut out = String::from("m=");
     for p in &fs[1..] {
-        let path = unhex(p);
+        let path = path_of(p);
         let fp2 = fp.clone();
-        let r = guard(move || b(fp2.matches(Path::new(&path))).to_string());
+        let r = guard(move || b(fp2.matches(&path)).to_string());
         out.push_str(if r == "PANIC" { "P" } else { &r });
     }
     out
@@ -61,7 +72,7 @@ fn ll_fp_s(p: &debian_copyright::lossless::FilesParagraph) -> String {
 pub fn copyright(fs: &[&str]) -> String {
     let text = unhex(fs[0]);
     let k: usize = fs[1].parse().unwrap();
-    let paths: Vec<String> = fs[2..2 + k].iter().map(|p| unhex(p)).collect();
+    let paths: Vec<std::path::PathBuf> = fs[2..2 + k].iter().map(|p| path_of(p)).collect();
     let names: Vec<String> = fs[2 + k..].iter().map(|p| unhex(p)).collect();
 
     // ---- lossless reader
@@ -92,7 +103,7 @@ pub fn copyright(fs: &[&str]) -> String {
             });
             let mut lq = Vec::new();
             for path in &paths2 {
-                let path = Path::new(path);
+                let path: &Path = path.as_path();
                 let mut bits = String::new();
                 let n = c.iter_files().count();
                 for i in 0..n {
@@ -124,7 +135,7 @@ pub fn copyright(fs: &[&str]) -> String {
         Ok(c) => {
             let mut yq = Vec::new();
             for path in &paths {
-                let path = Path::new(path);
+                let path: &Path = path.as_path();
                 let mut bits = String::new();
                 for f in &c.files {
                     let r = guard(|| b(f.matches(path)).to_string());
